@@ -66,6 +66,8 @@ pub struct StoreSpec {
     pub reducer_gate: bool,
     pub reducer_gate_only: Option<u32>,
     pub name: Option<&'static str>,
+    /// middleware 0 reads the store's state inside its before_reduce / before_dispatch hooks
+    pub mw_reads: bool,
 }
 
 impl StoreSpec {
@@ -81,6 +83,7 @@ impl StoreSpec {
             reducer_gate: false,
             reducer_gate_only: None,
             name: None,
+            mw_reads: false,
         }
     }
 }
@@ -328,6 +331,7 @@ pub fn run(p: &Program) {
             gate_idx: 0,
         };
         cfg.name = spec.name.map(|s| s.to_string());
+        let read_cell = Arc::new(StdMutex::new(None));
         for m in 0..spec.mws {
             let table: Vec<(usize, Verdict)> =
                 spec.verdicts.iter().filter(|v| v.1 == m).map(|v| (v.0, v.2)).collect();
@@ -338,10 +342,13 @@ pub fn run(p: &Program) {
                 }),
                 remove_effect: if spec.mw_removes_effect == Some(m) { Some(0) } else { None },
                 dispatch_in_hook: if m == 0 { spec.mw_dispatch_on } else { None },
+                read_from: if m == 0 && spec.mw_reads { Some(read_cell.clone()) } else { None },
             };
             cfg.mws.push(Arc::new(mw) as Arc<dyn Middleware<St, Act> + Send + Sync>);
         }
-        stores.push(build_store(cfg));
+        let st = build_store(cfg);
+        *read_cell.lock().unwrap() = Some(Arc::downgrade(&st));
+        stores.push(st);
     }
     let droppable = if p.droppable { Some(DroppableStore::new(stores[0].clone())) } else { None };
     let ctx = Arc::new(Ctx {
